@@ -124,3 +124,14 @@ PROPS["C14"] = {
             "in every interpolated position of the SP request/logout forms, IdP response form, samlidp login form and middleware POST page; rendered bytes compared with the model's rendering of the extracted template; "
             "metadata Location/ResponseLocation x known and unknown bindings x every endpoint-bearing element through xml.Unmarshal and samlsp.ParseMetadata",
 }
+
+PROPS["C16"] = {
+    "modules": ["SamlVerif.Props.C16"],
+    "trusted_base": ["modelled, not verified: golang-jwt parsing and validation order (re-implemented as `parse`; tied by structure-aware token mutation), JSON encoding of claims, net/http cookie handling",
+                     "signatures are symbolic (Mac): a signature verifies under (alg, key) iff it was made with that alg and key over these bytes"],
+    "assumptions": ["whole-second comparison of exp/nbf/iat as golang-jwt does for StandardClaims"],
+    "rule": "valid session tokens x clock lattice around iat/nbf/exp, attribute gates (present/absent/near-miss values), no cookie, malformed/truncated/extended strings, payload or signature altered without re-signing, "
+            "algorithm substitution (none, HS256 keyed with the public key PEM, RS512, other key family), other keys, correctly signed tokens with edited claims (audience/issuer/markers/time claims), "
+            "tracking tokens of the same SP, cross-deployment replay with a shared key; RSA and ECDSA deployments with custom lifetime and cookie name; tokens minted by the real codec from random assertions "
+            "(friendly names, repeated attributes, several statements, absent Subject/NameID) — observed through RequireAccount/RequireAttribute",
+}
